@@ -1254,6 +1254,10 @@ def compare_escape(obs, m):
             if p[k] != mt[k]:
                 if not p[k] and p.get(k + "_len", 0) == 0 and len(p["text"]) > 20000:
                     continue  # simpleeval's MAX_STRING_LENGTH: outside the model (documented hypothesis of the tie)
+                if p[k] and not mt[k] and 35 in p["text"]:
+                    # the scanner is a SUFFICIENT condition: a literal that ends early may still leave an expression that evaluates when a
+                    # `#` follows (the rest of the line is a comment: `"P: ... \'"#b c" + 3 ...` evaluates to the truncated string)
+                    continue
                 return (f"template {what} with error text {_txt(p['text'])}: real evaluation {'succeeds' if p[k] else 'raises'}, the model says the "
                         f"assembled literal is {'valid' if mt[k] else 'invalid'}")
     for t, mt in zip(obs.get("templates", []), m.get("templates", [])):
